@@ -901,17 +901,13 @@ class SimpleShape(DefinedShape):
             return self.__contains_simple(other)
         if isinstance(other, ConnectedShape):
             # cap S_i in S_j = any_i (bar S_j in bar S_i)
-            contains = False
-            self.invert()
+            # Work on inverted copies: the operands are never modified,
+            # so an exception or interrupt cannot leave them inverted
+            inverted_self = ~self
             for subshape in other.subshapes:
-                subshape.invert()
-                if self in subshape:
-                    contains = True
-                subshape.invert()
-                if contains:
-                    break
-            self.invert()
-            return contains
+                if inverted_self in ~subshape:
+                    return True
+            return False
         # Disjoint shape
         for subshape in other.subshapes:
             if subshape not in self:
